@@ -621,6 +621,16 @@ class Checker:
                 return f"input violates `{text}` but the derived procedure accepts it ({json.dumps(rb)[:60]})"
 
             self.settle(prog, "add_assertion", {"assertion": text}, real, mod, {}, None, inputs, results, judge=judge)
+        # observation (not a C19 violation: the admissible set still only shrinks): add_assertion does not
+        # type-check the parsed fragment, so a non-boolean or data-valued "assertion" is accepted
+        for (s, ty) in prog.args:
+            if ty[0] == "tensor" and len(ty[1]) == 1:
+                r = call_real(lambda: prog.p.add_assertion(f"{s[0]}[0] > 0.0"))
+                ctx.count("add_assertion:data-valued-predicate-" + ("accepted" if r[0] == "ok" else "refused:" + r[1]))
+                break
+        if idxs:
+            r = call_real(lambda: prog.p.add_assertion(f"{idxs[0]} + 1"))
+            ctx.count("add_assertion:non-boolean-predicate-" + ("accepted" if r[0] == "ok" else "refused:" + r[1]))
         for bad in ["no_such_name > 0", "zz_i < 3 and 1 == 1"]:
             real = call_real(lambda: prog.p.add_assertion(bad))
             ctx.count("add_assertion:near-miss")
